@@ -372,6 +372,55 @@ def internal_debug_assertion(F, b, bi, untainted=True):
     return True
 
 
+def hostile_relation(F, b, bi):
+    """the debug-only assertion in block `bi` compares two values that BOTH come straight out of one decoded structure (a field,
+    or a method of it, of a parameter of one of the UNTRUSTED_TYPES) - `debug_assert_eq!(delta.expected_output_size(),
+    delta.source_size)`.  Nothing the function computed takes part: the relation is a property of the input alone, which a
+    crafted file violates at will.  (F5 was this.)"""
+    fl = flow_of(b)
+    cfg = fl.cfg
+    conds = []
+    for s_ in cfg.reachable():
+        t = b.blocks[s_]['term']
+        if t['k'] != 'switch' or s_ == bi or not cfg.dominates(s_, bi) or t['on']['k'] == 'const':
+            continue
+        conds.append((s_, t['on']))
+    if not conds:
+        return False
+    s_, cond = max(conds, key=lambda x: len(cfg.reach(0, cut_blocks=[x[0]])))
+    # the comparison behind the condition
+    sides = None
+    if not cond['p']['proj']:
+        for (dbb, i_, kind, data, dproj) in fl.defs.get(cond['p']['l'], []):
+            if kind == 'assign' and data['k'] == 'bin' and data['op'] in ('Eq', 'Ne', 'Lt', 'Le', 'Gt', 'Ge'):
+                sides = data['ops']
+            elif kind == 'call' and (callee(data) or '').startswith('std::cmp::Partial') and len(data['args']) == 2:
+                sides = data['args']
+    if not sides:
+        return False
+    own = b.path.split('::{')[0].rsplit('::', 1)[0]
+
+    def straight_from_input(op, depth=0):
+        if op['k'] == 'const' or depth > 4:
+            return False
+        os_ = [o for o in fl.origins(op) if o.kind not in ('comb', 'const')]
+        if not os_:
+            return False
+        for o in os_:
+            if o.kind == 'param':
+                ty = b.local_ty(o.key)
+                if not any(u in ty for u in UNTRUSTED_TYPES) or (o.key == 1 and own and own in ty):
+                    return False
+            elif o.kind == 'call' and o.bb is not None:
+                args = [a for a in b.blocks[o.bb]['term'].get('args', []) if a['k'] != 'const']
+                if not args or not all(straight_from_input(a, depth + 1) for a in args):
+                    return False
+            else:
+                return False
+        return True
+    return all(straight_from_input(x) for x in sides)
+
+
 def hostile_index(F, b, bi):
     """the indexing site in block `bi`: its position is computed from a field of a decoded structure (a parameter of one of the
     UNTRUSTED_TYPES other than the receiver under construction, or the result of a deserialisation) and no comparison anywhere
@@ -550,6 +599,12 @@ def run_entries(ctx, rid, entries, text, floor_bodies=3):
                 slack[(f_, kind)] -= len(lst)
                 ctx.ok(rid, '%s:%s' % (top, kind), '%d site(s) in a new helper; tabled functions of this file have that many fewer than tabled (judged sites moved into the helper)'
                        % len(lst), term_loc(lst[0][0], lst[0][1]))
+            elif kind == 'panic' and len(lst) > mx and any(hostile_relation(F, b, bi) for (b, bi, d) in lst):
+                hb, hbi, hd = [x for x in lst if hostile_relation(F, x[0], x[1])][0]
+                # (tabled assertions of this kind do not exist: every tabled one compares something the function computed)
+                ctx.bad(rid, '%s:%s:relation-between-input-fields' % (top, kind),
+                        '%s asserts (debug builds) a relation between two values taken straight from a decoded structure (%s): a crafted input violates it at will and the '
+                        'process aborts instead of reporting an error' % (top, hd), term_loc(hb, hbi))
             elif kind == 'panic' and len(lst) > mx and all(internal_debug_assertion(F, b, bi, untainted=False) for (b, bi, d) in lst):
                 # more assertion sites than tabled, but every one of them is a debug-only assertion (`debug_assert*!`, compiled out
                 # of release builds; every tabled site of this kind is one too, so a plain `assert!`/`panic!` is always surplus). Whether such a condition can be false is a question about values: for one computed from the
